@@ -112,6 +112,7 @@ class IrProtocolBase(object):
         self._repeat_lead_out = self._repeat_lead_out[:]
         self._middle_timings = self._middle_timings[:]
         self._repeat_bursts = self._repeat_bursts[:]
+        self._stored_codes = []
 
         self._parameters = self._parameters[:]
         self.encode_parameters = self.encode_parameters[:]
